@@ -90,6 +90,12 @@ CLAIMED = {
         "differential property-based testing over generated histories (quote vs execution)",
         "DESIGN.md §4 C14",
     ),
+    "C15": (
+        "Four searches: (a) assert_max_spread (package) and (b) both deposit slippage assertions (pair constant-product + stableswap, trio; through the hook) with generated inputs placed on, one and two units around, and far from every threshold, for max_spread / tolerance in {None, 0, 1% -/+ 1e-18, 50% -/+ 1e-18, 1, >1, random}, judged by an exact-rational three-way oracle (forced accept / forced reject / either inside the 18-decimal granularity band); (c) live constant-product and stableswap pairs: every limited swap that succeeds must satisfy the realised bound computed from its actual amounts, and a limited swap that is rejected is re-executed without the limit in the same state - if that lands strictly inside the bound it is a violation; (d) router routes (1..3 hops, receivers with pre-existing balances) with minimum_receive = simulated amount + {-3..3, far}: success => receiver delta >= minimum, delivery >= minimum => not rejected (checked by re-executing without the minimum).",
+        "Band = Decimal floors at 18 places; belief-price rule judged only where offer/p and 1/p fit the contract's types. Package-level mutations are visible because the harness patches white-whale-std to /repo/packages.",
+        "property-based testing with a three-way exact-rational oracle on dense boundary inputs + differential live checks",
+        "DESIGN.md §4 C15",
+    ),
     "C02": (
         "Generated-input search (proptest, 16 deterministic shards) over the whole documented domain [1,2^128)^3 x valid fee triples x decimals, judged against an independent exact 1024-bit reference: gross floor, fee floors, strict bound, totality inside the 128-bit domain, there-and-back with the case's fees and with zero fees, gross monotone in the offer. Exploration, not proof: millions of cases per quick run, hundreds of millions thorough, with boundary constants and extreme-ratio shapes weighted in.",
         "Trusts refmath.rs (bnum integers, self-tested at start-up) and that commands::swap / queries::query_simulation call the hooked compute_swap (cross-checked by C14). A panic is an abort.",
